@@ -2864,6 +2864,9 @@ class State:
                 ):
                     player_indices.append(i)
 
+            if not player_indices and pots:
+                player_indices.extend(pots[-1].player_indices)
+
             while pots and pots[-1].player_indices == tuple(player_indices):
                 amount += pots.pop().amount
 
